@@ -90,6 +90,12 @@ def pool_statements():
     add('if_and', lambda: If(B('&&', B('==', va, C(5)), vb), A(vc, C(7)))); add('if_or', lambda: If(B('||', va, vb), A(vc, C(0))))
     add('if_ge', lambda: If(B('>=', va, C(128)), A(vb, va))); add('if_le', lambda: If(B('<=', va, vb), A(vc, va), A(vc, vb)))
     add('if_eq0', lambda: If(B('==', va, C(0)), A(vb, C(9)))); add('if_y0', lambda: If(B('==', Y, C(0)), A(va, C(1))))
+    add('if_gt3', lambda: If(B('>', va, C(3)), A(vb, C(4)))); add('if_gt3_or', lambda: If(B('||', B('>', va, C(3)), vb), A(vc, C(1))))
+    add('if_lt9_and', lambda: If(B('&&', B('<', va, C(9)), vb), A(vc, C(2)))); add('if_le5', lambda: If(B('<=', va, C(5)), A(vb, C(6)), A(vb, C(7))))
+    add('if_ge5', lambda: If(B('>=', va, C(5)), A(vb, C(8)))); add('if_xgt', lambda: If(B('>', X, C(1)), A(Y, C(2)))); add('if_eq5_or', lambda: If(B('||', B('==', va, C(5)), vb), A(vc, C(3))))
+    add('if_ne5_and', lambda: If(B('&&', B('!=', va, C(5)), B('!=', vb, C(0))), A(vc, C(4)))); add('if_w0', lambda: If(B('==', wa, C(0)), A(va, C(2))))
+    add('if_sgt', lambda: If(B('>', sa, C(0)), A(vb, C(1)))); add('mvi3', lambda: A(va, C(3))); add('x_mvi5', lambda: A(X, C(5))); add('if_xeq5', lambda: If(B('==', X, C(5)), A(vb, C(1)), A(vb, C(2))))
+    add('if_yne1', lambda: If(B('!=', Y, C(1)), A(vb, C(3))))
     add('set_lt', lambda: A(vc, B('<', va, vb))); add('set_eq', lambda: A(vc, B('==', va, vb))); add('tern', lambda: A(vc, Tern(va, vb, C(3))))
     # loops / switch
     add('do_fill', lambda: Block([A(X, C(0)), DoWhile(Block([A(ax, X), ExprS(Inc('++', False, X))]), B('!=', X, C(4)))]))
@@ -137,6 +143,11 @@ def g_peep(tier):
         pid = 'peep/2/%s+%s' % (t1, t2)
         if tier == 'quick' and not stable_pick(pid, 100, 100): continue
         yield build(pid, [(t1, f1), (t2, f2)])
+    # sandwiches a;b;a (reload / stale-register patterns need the same operand before and after an invalidating statement)
+    for (t1, f1), (t2, f2) in itertools.product(full, full):
+        pid = 'peep/s/%s+%s+%s' % (t1, t2, t1)
+        if tier == 'quick' and not stable_pick(pid, 100, 35): continue
+        yield build(pid, [(t1, f1), (t2, f2), (t1, f1)])
     if tier == 'thorough':
         rnd = random.Random(12345)
         for k in range(6000):
